@@ -11,4 +11,20 @@ CHECKS = {
                  "classes re-check the forest/size/index and heap structure after every public call.",
          "design_ref": "DESIGN.md section 6 C20", "note": _NOTE,
          "technique": "runtime monitoring: history vs sequential model + icontract class invariants"},
+ "C01": {"text": "Reference-model differential monitor: every public adjacency accessor of SurfaceMesh is called on every element of generated "
+                 "certified manifold polygon meshes and compared with a reference built from the face list alone; history monitor: fresh objects are "
+                 "driven through the accessor script in permuted orders (each accessor in turn first, with clear()), all answer tables must coincide.",
+         "design_ref": "DESIGN.md section 6 C01", "note": _NOTE,
+         "technique": "runtime monitoring: reference-model differential oracle + query-order history monitor"},
+ "C02": {"text": "Reference-model monitor of construction: expected containers (vertices, edge multiset with attribute payloads, completed faces, "
+                 "corner records, class, hard-edge flags) are computed from generated raw inputs and compared after construction through three routes "
+                 "and four row container types, with completion switches toggled; idempotence history (re-wrap / re-instantiate / re-prepare) and "
+                 "row-type independence of the full connectivity script.",
+         "design_ref": "DESIGN.md section 6 C02", "note": _NOTE,
+         "technique": "runtime monitoring: reference-model differential oracle + idempotence / container-type metamorphic monitors"},
+ "C03": {"text": "Reference-model differential monitor for VolumeMesh connectivity (27 accessors incl. rotational rings around edges) against a "
+                 "reference from the cell list, in permuted query orders on fresh objects; boundary monitor: extracted surfaces (boundary_mesh and "
+                 "the standalone extractor) must be exactly the border faces, closed, outward, with mutually inverse index maps.",
+         "design_ref": "DESIGN.md section 6 C03", "note": _NOTE + " 'Positively oriented' is read as the library's own signed volume det(p0-p3,p1-p3,p2-p3)>0.",
+         "technique": "runtime monitoring: reference-model differential oracle + query-order history + boundary-map invariants"},
 }
